@@ -88,12 +88,21 @@ def outcome(fn, *a, **kw):
         return {"exc": type(e).__name__, "msg": _HEX.sub("0x?", msg)[:300]}
 
 
-def infer(models, options):
+def narrow_str_registry(obj, base, names):
+    """What a caller does who keeps ONE registry object and switches string types off between generations."""
+    for n in base:
+        if n not in names and _STR_CLS[n] in obj:
+            obj.remove(_STR_CLS[n])
+    return obj
+
+
+def infer(models, options, str_registry_obj=None):
     """samples -> merged, named ModelRegistry (the part of the pipeline before layout)."""
     st = options.get("str_types", ["int", "float", "bool"])
     gen = MetadataGenerator(
         # "default": the process-global default registry (what a library user gets without passing one)
-        str_types_registry=None if st == "default" else build_str_registry(st),
+        str_types_registry=str_registry_obj if str_registry_obj is not None else
+        None if st == "default" else build_str_registry(st),
         dict_keys_regex=[rf"^{r}$" for r in options.get("dict_keys_regex", [])],
         dict_keys_fields=list(options.get("dict_keys_fields", [])),
     )
